@@ -190,6 +190,11 @@ class Source:
             exact = [h for h in hits if h[1] == container]
             if len(exact) == 1:
                 hits = exact
+        if container is None and len(hits) > 1:
+            # prefer the item that is not nested in any `mod` block (file top level)
+            top = [h for h in hits if not self.enclosing(h[0])]
+            if len(top) == 1:
+                hits = top
         if len(hits) != 1:
             raise ExtractError("%s: %s %s (container=%r) matches %d items" % (self.path, kind, name, container, len(hits)))
         off = hits[0][0]
@@ -376,6 +381,9 @@ def widen_vis(text, rules, fields=False):
     n = len(re.findall(r"\bpub\s*\((crate|super|in [^)]*)\)", text))
     text = re.sub(r"\bpub\s*\((crate|super|in [^)]*)\)", "pub", text)
     rules.hit("widen:pub(crate)->pub", n)
+    # private module-level consts become pub (Verus: a public spec may not mention a private const)
+    text, k = re.subn(r"(?m)^(\s*)const\s+([A-Z_0-9]+)\s*:", r"\1pub const \2:", text)
+    rules.hit("widen:const->pub", k)
     return text
 
 
